@@ -10,6 +10,8 @@ KindsRoles2 == [o \in Ops |-> IF o = "o1" THEN {"search"} ELSE IF o = "o2" THEN 
 KindsTimed == [o \in Ops |-> IF o = "o1" THEN {"single"} ELSE {"single", "search"}]
 LastWrap == {0, MaxId - 1}
 LastZero == {0}
+TmoGen == {0, -1, 1}
+TmoZero == {0, -1, 2}
 View == <<alloc, queues, maps, chans, callerv, envv, now>>     \* history variables hidden
 EntOnly == {"ent"}
 AllItems == {"ent", "ref", "int"}
